@@ -27,7 +27,7 @@ func c14Server(c *core.Ctx, router routers.Router) {
 	var rec func(cur []c14op, depth int)
 	rec = func(cur []c14op, depth int) {
 		scripts = append(scripts, append([]c14op{}, cur...))
-		if depth == 3 {
+		if depth == 4 {
 			return
 		}
 		for _, o := range ops {
